@@ -61,6 +61,8 @@ def gen_int(rng):
         if total >= len(digits):
             text = text[:2] + underscores(rng, "0" * (total - len(digits)) + digits)
     vt = None
+    if form != "dec" and rng.random() < 0.15:
+        text += "_"         # a separator may also follow the last digit (before a suffix or at the end of the literal)
     if rng.random() < 0.4:
         s = rng.choice(INT_SUFFIXES)
         text += s
